@@ -18,7 +18,10 @@ def generic_replay(pid, mod, res, data):
     recorded input is part of what the check enumerates or draws from that seed)."""
     rp = data.get('replay', {})
     print('replaying %s: %s' % (data.get('property'), data.get('what', '')[:300]))
-    if isinstance(rp, dict) and {'logic', 'structure', 'formula_sexpr'} <= set(rp):
+    # the shortcut applies to plain "implementation vs exact model" records only; records of the special streams (truth on
+    # an isomorphic / normalised instance, answers under -O, memo model, histories) re-run the whole check with its seed
+    if isinstance(rp, dict) and {'logic', 'structure', 'formula_sexpr', 'impl', 'model'} <= set(rp) and \
+            not ({'truth', 'impl_under_O', 'memo_model', 'history', 'F', 'step'} & set(rp)):
         from checks import mc_common
         K = common.KS(rp['structure']['succ'], rp['structure']['labels'])
         t = common.parse_sexpr(rp['formula_sexpr'])
@@ -63,8 +66,9 @@ def child_pass(pid, tier, res, key, what, argv_extra, env_extra):
             path = l.split('replay=')[1].split()[0]
             res.violation('%s: %s' % (what, w), {'replay_of_that_run': path, 'history': what},
                           no_input=l.rstrip().endswith('no-failing-input-found'))
-    if p.returncode not in (0, 1):
-        raise common.HarnessError('the repetition (%s) ended with exit %d: %s' % (what, p.returncode, p.stdout[-600:]))
+    if p.returncode not in (0, 1) or (p.returncode == 1 and n == 0) or \
+            (p.returncode == 0 and not any(l.startswith('OK property=') for l in lines)):
+        raise common.HarnessError('the repetition (%s) ended with exit %d and no verdict line: %s' % (what, p.returncode, p.stdout[-600:]))
     res.coverage['repeated_in_full_' + key] = True
     res.coverage['violations_only_' + key] = n
     res.coverage['wall_s_' + key] = round(time.time() - t0, 1)
@@ -125,11 +129,47 @@ def main():
     except common.HarnessError as e:
         print('HARNESS-ERROR property=%s %s' % (pid, e))
         rc = 2
-    except Exception:
+    except Exception as e:
         traceback.print_exc()
-        print('HARNESS-ERROR property=%s (exception above)' % pid)
-        rc = 2
+        rc = escaped_exception(pid, res, e)
     sys.exit(rc)
+
+
+def escaped_exception(pid, res, e):
+    """An exception escaped the check.  If it was raised INSIDE the package under test (innermost frame under $REPO) by a
+    call the check makes unguarded, that is the library failing on an input of the run: a violation whose replay is the
+    call site, its local variables and the seed.  Violations recorded before the crash are never lost.  Anything else is
+    a harness error."""
+    tb = traceback.extract_tb(e.__traceback__)
+    repo = os.path.realpath(common.REPO)
+    inner_in_repo = bool(tb) and os.path.realpath(tb[-1].filename).startswith(repo + os.sep)
+    if inner_in_repo:
+        caller, t = None, e.__traceback__
+        while t is not None:
+            fn = os.path.realpath(t.tb_frame.f_code.co_filename)
+            if not fn.startswith(repo + os.sep):
+                caller = t
+            t = t.tb_next
+        loc = {}
+        if caller is not None:
+            for k, v in list(caller.tb_frame.f_locals.items())[:40]:
+                try:
+                    loc[k] = repr(v)[:300]
+                except Exception:
+                    loc[k] = '<unrepresentable>'
+        res.violation('the library raised %s: %s in a call the check makes on its generated inputs (%s:%d in %s)'
+                      % (type(e).__name__, str(e)[:200], os.path.basename(tb[-1].filename), tb[-1].lineno, tb[-1].name),
+                      {'exception': type(e).__name__, 'message': str(e)[:500],
+                       'traceback': [(os.path.relpath(f.filename, repo) if os.path.realpath(f.filename).startswith(repo) else f.filename,
+                                      f.lineno, f.name) for f in tb[-8:]],
+                       'locals_at_the_calling_harness_frame': loc})
+    if res.violations:
+        try:
+            return res.finish()
+        except Exception:
+            traceback.print_exc()
+    print('HARNESS-ERROR property=%s (exception above)' % pid)
+    return 2
 
 
 if __name__ == '__main__':
